@@ -157,6 +157,9 @@ class EvalContext(metaclass=NamespaceableMeta):
         self.check_safe(cfgobj, prefix)
 
         if id(cfgobj) in self._eval_cache_id:
+            if self._require_all_safe:
+                # the node was evaluated earlier, outside of this context: check what it was computed from as well
+                self._check_cached_safe(prefix, set())
             return self._eval_cache_id[id(cfgobj)]
 
         evaluated_parent = None
